@@ -84,6 +84,12 @@ def cases(tier, seed):
         for op in (('add', 'sub', 'mul') if tier == 'thorough' else (('add', 'sub', 'mul')[i % 3],)):
             cs.append({'gen': 'binop', 'op': op, 'N1': N1, 'R1': R1, 'N2': N2, 'R2': R2, 'dtype': DT[i % 5] if i % 7 else 'f64',
                        'vals': 'gauss' if i % 4 == 3 else 'int'})
+    # the same object on both sides of the operator (x - x is exactly zero, x + x = 2x, x * x = x^2): nothing temporary done to one operand may show through the other
+    for i in range(90 if tier == 'quick' else 900):
+        d = rng.randint(1, 4)
+        Ns = [rng.choice((1, 2, 3, 4)) for _ in range(d)]
+        Rs = gens.rank_profile(rng, d, 'rand', 3)
+        cs.append({'gen': 'binop', 'op': ['sub', 'add', 'mul'][i % 3], 'N1': Ns, 'R1': Rs, 'N2': list(Ns), 'R2': list(Rs), 'dtype': DT[i % 5], 'vals': 'gauss' if i % 4 == 3 else 'int', 'same': True})
     # B: random larger structures
     nB = 2000 if tier == 'quick' else 30000
     for i in range(nB):
@@ -180,6 +186,9 @@ def run_binop(case, ctx, g):
     dt = dn.dtype_of(case['dtype'])
     x = gens.make_tt(case['N1'], case['R1'], dt, case['vals'], g)
     y = gens.make_tt(case['N2'], case['R2'], dt, case['vals'], g)
+    if case.get('same'):
+        y = x           # THE SAME OBJECT on both sides (x - x, x + x, x * x)
+        ctx.count('binop/same-object-on-both-sides')
     op = case['op']
     equal = case['N1'] == case['N2']
     ctx.count('branch:%s-%s' % (op, 'equal' if equal else 'broadcast'))
